@@ -102,6 +102,15 @@ Goal Proofs.C10_SC.c10_sc_cfg_ok Proofs.C10.w_brace_cfg = true /\ contains_char 
     contains_sub (lit "case class A (") text = true /\ good_C10_lex CSC text = true.
 Proof. exact Props.C10.C10_scala_package_brace_fixed. Qed.
 Print Assumptions Props.C10.C10_scala_package_brace_fixed.
+Goal dom_C10 CPY (Proofs.C10.w_pd [] [] [Proofs.C10.w_alias]) = true /\
+  known_C10 CPY [] (Proofs.C10.w_pd [] [] [Proofs.C10.w_alias]) = [] /\
+  py_generate uc_exec Proofs.C10.w_py_cfg (Proofs.C10.w_pd [] [] [Proofs.C10.w_alias]) = Ok Proofs.C10.w_py_alias_text /\
+  contains_sub (lit "Al = List[T]") Proofs.C10.w_py_alias_text = true /\
+  contains_sub (lit "Al[T]") Proofs.C10.w_py_alias_text = false /\
+  contains_sub (lit "T = TypeVar(""T"")") Proofs.C10.w_py_alias_text = true /\
+  good_C10_lex CPY Proofs.C10.w_py_alias_text = true.
+Proof. exact Props.C10.C10_python_generic_alias_fixed. Qed.
+Print Assumptions Props.C10.C10_python_generic_alias_fixed.
 Goal exists cfg pd text, dom_C10 CSC pd = true /\ known_C10 CSC (sc_package cfg) pd = ["C10-scala-default"%string] /\
     sc_generate uc_exec cfg pd = Ok text /\ contains_sub (lit "x: String = _") text = true.
 Proof. exact Props.C10.C10_scala_default_refuted. Qed.
@@ -111,10 +120,6 @@ Goal exists cfg pd text, dom_C10 CSW pd = true /\ known_C10 CSW [] pd = ["C10-sw
     contains_sub (lit "public init(let: String)") text = true /\ good_C10_swift_labels [lit "let"] = false.
 Proof. exact Props.C10.C10_swift_label_refuted. Qed.
 Print Assumptions Props.C10.C10_swift_label_refuted.
-Goal exists cfg pd text, dom_C10 CPY pd = true /\ known_C10 CPY [] pd = ["C10-python-generic-alias"%string] /\
-    py_generate uc_exec cfg pd = Ok text /\ contains_sub (lit "Al[T] = List[T]") text = true.
-Proof. exact Props.C10.C10_python_generic_alias_refuted. Qed.
-Print Assumptions Props.C10.C10_python_generic_alias_refuted.
 Goal exists cfg pd text, dom_C10 CPY pd = true /\ known_C10 CPY [] pd = ["C10-python-generic-enum-arg"%string] /\
     py_generate uc_exec cfg pd = Ok text /\ contains_sub (lit "Al = List[G[int]]") text = true /\
     contains_sub (lit "G = GV") text = true.
